@@ -127,14 +127,16 @@ def run_plan(plan):
   if plan["dataset"].get("same_class_dups"):
     X = X.copy()
     rd = np.random.RandomState(h64("c09-dups", plan["run_seed"]) & 0xFFFFFFFF)
+    done = 0
     for _ in range(int(plan["dataset"]["same_class_dups"])):
       c_ = rd.choice(np.unique(y))
       mem = np.where(y == c_)[0]
-      if len(mem) >= 4:
+      if len(mem) >= 8 and done < 2:      # a few repeated measurements in a class that stays well spread
         src = mem[rd.randint(len(mem))]
-        for t_ in rd.permutation(mem)[:rd.randint(1, 4)]:
+        for t_ in rd.permutation(mem[mem != src])[:rd.randint(1, 3)]:
           X[t_] = X[src]
-    cov["lfda_same_class_duplicates"] += 1
+        done += 1
+    cov["lfda_same_class_duplicates"] += int(done > 0)
   if cls == "RCA":
     D.chunks = _relabel_chunks(D.chunks, plan.get("chunk_ids"), plan["run_seed"])
     cov["rca_chunk_ids_" + str(plan.get("chunk_ids") or "contiguous")] += 1
@@ -225,6 +227,10 @@ def run_plan(plan):
         k = p.get("k")
         k_eff = min(7, d - 1) if k is None else (d - 1 if k >= d else k)
         ref = cf.lfda_ref(X, y, dim, k_eff, p["embedding_type"])
+        wsw = np.linalg.eigvalsh(ref["Sw"])
+        if wsw.min() <= 1e-8 * wsw.max():
+          inconclusive.append("lfda_within_scatter_ill_conditioned")
+          continue
         if ref["gap"] < GAP:
           inconclusive.append("lfda_eigen_gap")
           continue
